@@ -447,6 +447,96 @@ Definition call_handler (h : handler) (s : est) (arg : Z) (data : str) : eres :=
   | EErr c s1 => if c =? E_READONLY then EOk (leave (fix_vi_cursor_position s1)) else EErr c s1
   end.
 
+(* ---------------------------------------------------------------------- *)
+(* KeyPressEvent.arg - the repeat count a handler reads.  [_arg] is the string
+   KeyProcessor.arg accumulates (KeyPressEvent.append_to_arg_count: "-", or an
+   optional "-" followed by the digits typed; None when nothing was typed).
+   `int(self._arg or 1)`: CPython's int() raises ValueError for a string of
+   more than sys.get_int_max_str_digits() = 4300 digit characters (leading
+   zeros count, the sign does not) - and a user can type that many (finding
+   C05-F14).  None = ValueError. *)
+Definition E_VALUE : Z := 4.
+Definition MAX_STR_DIGITS : Z := 4300.
+Definition C_MINUS : Z := 45.
+Definition is_digit (c : Z) : bool := (48 <=? c) && (c <=? 57).
+Fixpoint dec_value (ds : str) (acc : Z) : Z :=
+  match ds with [] => acc | d :: r => dec_value r (acc * 10 + (d - 48)) end.
+Definition py_int (s : str) : option Z :=
+  let '(neg, ds) :=
+    match s with
+    | c :: r => if c =? C_MINUS then (true, r) else (false, s)
+    | [] => (false, [])
+    end in
+  if (len ds =? 0) || negb (forallb is_digit ds) || (MAX_STR_DIGITS <? len ds) then None
+  else Some (if neg then - dec_value ds 0 else dec_value ds 0).
+Definition clamp_million (r : Z) : Z := if 1000000 <=? r then 1 else r.
+Definition event_arg_pinned (a : option str) : option Z :=
+  match a with
+  | None => Some 1
+  | Some s =>
+      if str_eqb s [C_MINUS] then Some (-1)
+      else match py_int (match s with [] => [49] | _ => s end) with
+           | Some r => Some (clamp_million r)
+           | None => None
+           end
+  end.
+
+(* KeyPressEvent.arg as it is since fix 7b1fd9f (fixes/C05-arg-too-many-digits.patch):
+   only the significant digits are looked at; more than seven of them are not
+   converted at all.  [event_arg_pinned] above is the code before that fix. *)
+Fixpoint lstrip_c (c : Z) (s : str) : str :=
+  match s with x :: r => if x =? c then lstrip_c c r else s | [] => [] end.
+Definition event_arg (a : option str) : option Z :=
+  match a with
+  | None => Some 1
+  | Some s =>
+      if str_eqb s [C_MINUS] then Some (-1)
+      else
+        let s1 := match s with [] => [49] | _ => s end in
+        let negative := match s1 with c :: _ => c =? C_MINUS | [] => false end in
+        let digits := match lstrip_c 48 (lstrip_c C_MINUS s1) with [] => [48] | d => d end in
+        if 7 <? len digits then Some (if negative then -1 else 1)
+        else match py_int digits with
+             | Some r => Some (clamp_million (if negative then - r else r))
+             | None => None
+             end
+  end.
+
+(* what append_to_arg_count can build: "-" or [-]digits+ *)
+Definition arg_string (s : str) : bool :=
+  match s with
+  | c :: r => if c =? C_MINUS then forallb is_digit r else forallb is_digit s
+  | [] => false
+  end.
+
+(* handlers whose body evaluates event.arg (before anything else) *)
+Definition reads_arg (h : handler) : bool :=
+  match h with
+  | HForwardChar | HBackwardChar | HSelfInsert | HDeleteChar | HBackwardDeleteChar | HViGoLeft
+  | HViUpSel | HViDownSel | HViUpNav | HViGoUpK | HViDownNav | HViGoDownJ
+  | HPreviousHistory | HNextHistory | HEmacsAutoUp | HEmacsAutoDown => true
+  | HViOperatorInNav p => p
+  | _ => false
+  end.
+
+(* _call_handler with the argument string as typed: the ValueError of
+   event.arg leaves the handler (and _call_handler: it is not
+   EditReadOnlyBuffer) before the handler has changed anything - except
+   _operator_in_navigation, which has stored vi_state.operator_func before it
+   evaluates event.arg: the operator stays pending *)
+Definition call_handler_str (ea : option str -> option Z) (h : handler) (s : est)
+           (a : option str) (data : str) : eres :=
+  if reads_arg h then
+    match ea a with
+    | Some n => call_handler h s n data
+    | None =>
+        EErr E_VALUE (match h with
+                      | HViOperatorInNav _ => with_vi s (vmode s) true (voparg s) (vdig s) (vtemp s)
+                      | _ => s
+                      end)
+    end
+  else call_handler h s 1 data.
+
 (* accept-line -> Buffer.validate_and_handle -> PromptSession's accept handler:
    app.exit(result=buff.document.text) *)
 Definition accept_result (s : est) : str := dtext (edoc s).
